@@ -38,6 +38,7 @@ func runC11(p *core.Prog, r *core.Report) {
 	c11Equations(c)
 	c11Constants(c)
 	c11Paillier(c)
+	aliasedInPlaceUpdates(c, "RA.1", "crypto/mta", "crypto/schnorr", "crypto/dlnproof", "crypto/modproof", "crypto/facproof", "crypto/paillier", "common")
 }
 
 func checkGuards(c *ctx, rule string, fn *ssa.Function, ri int, guards []reqGuard) {
